@@ -204,6 +204,14 @@ func (e *c09ex) Exec(op string) string {
 			return "ok key-published"
 		}
 		return "ok no-key-event"
+	case "doneA":
+		if len(w) != 3 {
+			return "bad-op"
+		}
+		if r := e.a.Invoke(wd.Client.Creator, simpeer.NewTxID(), "multiSwapDone", e.id(w[1]), key(w[1], w[2])); !r.OK() {
+			return "err"
+		}
+		return "ok"
 	case "rdone":
 		if len(w) != 3 {
 			return "bad-op"
@@ -304,7 +312,7 @@ func genC09(c *Cfg, emit func([]string)) {
 				case 10:
 					h = append(h, fmt.Sprintf("begin %s %s g1:1 task", s.sym, users[c.Rng.Intn(2)]))
 				case 11:
-					h = append(h, "done nosuch right")
+					h = append(h, []string{"done nosuch right", "doneA " + s.sym + " right", "doneA " + s.sym + " right", "doneA " + s.sym + " wrong"}[c.Rng.Intn(4)])
 				}
 			}
 			h = append(h, "dump")
@@ -317,8 +325,9 @@ func genC09(c *Cfg, emit func([]string)) {
 		emit([]string{"reset " + dir, "fund u0 g1 100", "fund u0 g2 50", "begin m1 u0 g1:30+g2:20 batch", "dump",
 			"cancelA m1 u1", "cancelA m1 u0", "tickA 10799", "cancelA m1 u0", "dump", "tickA 1", "cancelA m1 u0", "dump", "cancelA m1 u0"})
 		emit([]string{"reset " + dir, "fund u0 g1 100", "fund u0 g2 50", "begin m1 u0 g1:30+g2:51 batch", "dump", "begin m2 u0 g1:30+g2:50+g1:71 task", "dump", "begin m3 u0 g1:30+g2:50+g1:70 task", "dump"})
+		emit([]string{"reset " + dir, "fund u0 g1 100", "begin m1 u0 g1:30 batch", "doneA m1 right", "dump", "answer m1 u0 g1:30", "doneA m1 right", "dump", "done m1 right", "dump", "doneA m1 right", "dump"})
 		emit([]string{"reset " + dir, "fund u0 g1 100", "begin m1 u0 g1:30 batch", "answer m1 u0 g1:30", "done m1 wrong", "done m1 right", "dump", "done m1 right", "rdone m1 wrong", "rdone m1 right", "dump", "rdone m1 right", "cancelB m1 u0", "tickB 1000", "cancelB m1 u0"})
 	}
-	c.Rule = fmt.Sprintf("%d random histories: multi-swaps of 1..3 assets (also the same group twice, empty list, zero and negative amounts, 2nd/3rd asset under-funded by 1) begun through batches and task lists (incl. a second begin under an open id), answered, completed with right/wrong keys on either side, cancelled by creator or stranger on the origin record and on the answered copy, with the two peer clocks moved to just before / exactly at / after the timeouts; plus directed schedules for the timeout edge and repeated completion; balances of 2 owners x 2 groups on both channels, given counters and records after every step. non-trivial = contains a begin; distinct = sha256", nRand)
+	c.Rule = fmt.Sprintf("%d random histories: multi-swaps of 1..3 assets (also the same group twice, empty list, zero and negative amounts, 2nd/3rd asset under-funded by 1) begun through batches and task lists (incl. a second begin under an open id), answered, completed with right/wrong keys on the destination and (never allowed) on the origin record, cancelled by creator or stranger on the origin record and on the answered copy, with the two peer clocks moved to just before / exactly at / after the timeouts; plus directed schedules for the timeout edge and repeated completion; balances of 2 owners x 2 groups on both channels, given counters and records after every step. non-trivial = contains a begin; distinct = sha256", nRand)
 	c.Extra = map[string]any{"random": nRand}
 }
